@@ -292,6 +292,47 @@ func checkC12(c *Ctx) {
 				}
 			}
 		}
+		// and on every path that reports success: the mask of this instance is derived from this call's key
+		// (no result of an earlier derivation is reused: a remembered key slice aliases caller memory, and a
+		// key changed in place would keep the old mask)
+		fsm := newFailSet()
+		succ := 0
+		okw := walkAll(c, "C12.R3", rm, func(p *Path) {
+			r := p.Returns()
+			if r == nil || len(r.Results) != 1 {
+				return
+			}
+			if v, isC := constInt(p.Resolve(r.Results[0], len(p.Blocks)-1)); isC && v != 0 {
+				return
+			}
+			succ++
+			absorbed, permuted := false, false
+			p.ForEach(func(i int, ins ssa.Instruction) bool {
+				call, ok := ins.(*ssa.Call)
+				if !ok {
+					return true
+				}
+				if calleeID(call) == hopID("snp", "", "StateSetBytes") && len(call.Call.Args) == 2 && paramIndex(rm, p.Resolve(call.Call.Args[1], i)) == 1 {
+					absorbed = true
+				}
+				if g := staticCallee(&call.Call); g != nil && absorbed && g.Pkg == rm.Pkg && len(g.Params) == 1 && !permuted {
+					// the permutation applied to the state the key was written into
+					if pt, ok := g.Params[0].Type().(*types.Pointer); ok {
+						if at, ok := pt.Elem().Underlying().(*types.Array); ok && at.Len() == 25 {
+							permuted = true
+						}
+					}
+				}
+				return true
+			})
+			if !absorbed || !permuted {
+				fsm.add("derived-each-time", "RefMaskInitialize reports success on a path that does not write this call's key into the state and permute it: a mask remembered from an earlier call is reused (a key changed in place keeps the old key's mask; changed key bytes have no influence on the output)", p.Exit(), p)
+			}
+		})
+		if okw {
+			fsm.report(c, "C12.R3", FuncName(rm), []string{"derived-each-time"}, P.Pos(rm.Pos()), fmt.Sprintf("key absorbed and permuted on all %d success paths", succ))
+			c.Floor("C12.R3", "success paths of RefMaskInitialize", succ, 1)
+		}
 		c.Check(wholeKey, "C12.R3", FuncName(rm)+"#whole-key", P.Pos(rm.Pos()), "StateSetBytes(&k, key) with the unsliced key", "RefMaskInitialize does not absorb the whole key")
 		c.Check(padAtLen, "C12.R3", FuncName(rm)+"#pad", P.Pos(rm.Pos()), "padding byte 1 at offset len(key)", "RefMaskInitialize does not place the padding byte right after the key")
 	}
